@@ -61,6 +61,9 @@ CALLS = [
     # an Array built from an Array that an EARLIER call returned (R), or from an equal fresh one when there is none: after a flood of the Dtype
     # caches the two Arrays no longer share a Dtype object
     ('a-from-R', "AR(bitstring.Array('uint8', R if isinstance(globals().get('R'), bitstring.Array) and str(R.dtype) == 'uint8' and R.data.hex == '0a0b' else bitstring.Array('uint8', trailing_bits='0x0a0b')))"),
+    # pretty-printing with a two-token struct format, then the same format string in unpack / pack
+    ('a-pp-struct', "(lambda o: (bitstring.Array('<h', [1, 2]).pp('<hH', stream=o), len(o.getvalue()) > 0)[1])(__import__('io').StringIO())"),
+    ('u-struct2', "bitstring.Bits('0x0f3a0102').unpack('<hH')"), ('p-struct2', "bitstring.pack('<hH', -2, 7)"),
     ('a-trail2', "bitstring.Array('uint4', [1], trailing_bits='0b1')"), ('c-0a0b', "bitstring.Bits('0x0a0b')"), ('c-0b1', "bitstring.ConstBitStream('0b1')"),
 ]
 CALL_SRC = dict(CALLS)
